@@ -47,11 +47,14 @@ func (c *Compressed) parse(r io.Reader) error {
 		return err
 	}
 
+	// A DEFLATE decompressor is 44 KiB of window and tables. It is created when the body
+	// is read for the first time: a reader of keys never reads it, and a compressed data
+	// packet can be as short as three octets (1 MiB of them allocated 15 GB).
 	switch buf[0] {
 	case 1:
-		c.Body = flate.NewReader(r)
+		c.Body = &lazyReader{open: func() (io.Reader, error) { return flate.NewReader(r), nil }}
 	case 2:
-		c.Body, err = zlib.NewReader(r)
+		c.Body = &lazyReader{open: func() (io.Reader, error) { return zlib.NewReader(r) }}
 	case 3:
 		c.Body = bzip2.NewReader(r)
 	default:
@@ -59,6 +62,25 @@ func (c *Compressed) parse(r io.Reader) error {
 	}
 
 	return err
+}
+
+// lazyReader opens its reader on the first Read. An error of open (a malformed zlib
+// header) is the result of that and of every later Read.
+type lazyReader struct {
+	open func() (io.Reader, error)
+	r    io.Reader
+	err  error
+}
+
+func (l *lazyReader) Read(p []byte) (int, error) {
+	if l.r == nil && l.err == nil {
+		l.r, l.err = l.open()
+		l.open = nil
+	}
+	if l.err != nil {
+		return 0, l.err
+	}
+	return l.r.Read(p)
 }
 
 // compressedWriteCloser represents the serialized compression stream
